@@ -274,7 +274,36 @@ func genC39(seed uint64) *Plan {
 			t.parts = np
 		}
 	}
-	if g.pct(10) {
+	directed := false
+	if mode == 1 && g.pct(30) {
+		// a matching topic is deleted and created again under the same
+		// name once the client considers the missing topic deleted and has
+		// let go of it: "partitions of matching topics created later"
+		var cands []*tinfo
+		for _, t := range all {
+			if t.created && t.name != "in-int" && t.name != "in-skip-a" && t.name != "other-a" {
+				cands = append(cands, t)
+			}
+		}
+		if len(cands) > 0 {
+			t := cands[g.R.Intn(len(cands))]
+			k["missing_deleted_ms"] = g.pick(1000, 3000, 8000)
+			del := t.atMs + g.rng(2000, 5000)
+			var evs []Event
+			for _, ev := range g.P.Events {
+				if ev.Kind == "add_partitions" && ev.S == t.name {
+					continue // keep the partition count of the two incarnations simple
+				}
+				if ev.Kind == "create_topic" && ev.S == t.name {
+					t.parts = ev.A
+				}
+				evs = append(evs, ev)
+			}
+			g.P.Events = append(evs, Event{AtMs: del, Kind: "delete_topic", S: t.name}, Event{AtMs: del + 1, Kind: "recreate_after_purge", S: t.name, A: t.parts + g.pick(0, 0, 1), B: g.pick(0, 300, 3000)})
+			directed = true
+		}
+	}
+	if !directed && g.pct(10) {
 		t := all[g.R.Intn(len(all))]
 		g.P.Events = append(g.P.Events, Event{AtMs: g.rng(horizon/2, horizon), Kind: "delete_topic", S: t.name})
 	}
@@ -315,6 +344,13 @@ func genC39(seed uint64) *Plan {
 		default:
 			ctl.Ops = append(ctl.Ops, Op{Kind: "pause_t", S: t.name}, Op{Kind: "sleep", A: 200}, Op{Kind: "resume_t", S: t.name})
 		}
+	}
+	if mode == 0 && g.pct(30) {
+		// a partition of a whole-topic selection is removed, the topic is
+		// purged and then added again: all of it is selected once more
+		t := all[g.R.Intn(int(ntopics))]
+		ctl.Ops = append(ctl.Ops, Op{Kind: "sleep", A: g.pick(100, 1000, 3000)}, Op{Kind: "remove_part", S: t.name, B: g.rng(0, nparts-1)},
+			Op{Kind: "sleep", A: g.pick(0, 100, 1000)}, Op{Kind: "purge", S: t.name}, Op{Kind: "sleep", A: g.pick(0, 100, 2000)}, Op{Kind: "add_topic", S: t.name})
 	}
 	if len(ctl.Ops) > 0 {
 		g.P.Actors = append(g.P.Actors, ctl)
